@@ -361,7 +361,11 @@ func Run(c Case) (res Result, sig string, err error) {
 		st.mu.Lock()
 		g := st.gen[in.Id]
 		st.mu.Unlock()
-		in.Ctx = context.WithValue(in.Ctx, ownerKey{}, fmt.Sprintf("%s#%d", in.Id, g))
+		owner := fmt.Sprintf("%s#%d", in.Id, g)
+		if in.ParsedQuery != nil && in.ParsedQuery.Kind == "mutation" {
+			owner = "mutation:" + owner
+		}
+		in.Ctx = context.WithValue(in.Ctx, ownerKey{}, owner)
 		return next(in)
 	})
 	served := make(chan struct{})
@@ -433,6 +437,28 @@ func Run(c Case) (res Result, sig string, err error) {
 		return "", nil
 	}
 
+	// endedCalls: resolver calls counted for a subscription (id#generation) at the moment the
+	// echo behind its unsubscribe frame came back: the server has processed the unsubscribe,
+	// the rerunner's Stop has returned, none of its resolvers may start any more.
+	endedCalls := map[string]int{}
+	markEnded := func(id string) {
+		st.mu.Lock()
+		k := fmt.Sprintf("%s#%d", id, st.gen[id])
+		if _, done := endedCalls[k]; !done {
+			endedCalls[k] = st.calls[k]
+		}
+		st.mu.Unlock()
+	}
+	checkEnded := func() error {
+		st.mu.Lock()
+		defer st.mu.Unlock()
+		for k, n := range endedCalls {
+			if st.calls[k] != n {
+				return fmt.Errorf("resolvers of subscription %s ran after the server had processed its unsubscribe (%d calls then, %d now)", k, n, st.calls[k])
+			}
+		}
+		return nil
+	}
 	nMut := 0
 	for ai, a := range c.Actions {
 		if closed {
@@ -543,6 +569,7 @@ func Run(c Case) (res Result, sig string, err error) {
 					return res, "no-echo", fmt.Errorf("no echo reply after unsubscribe of unknown id")
 				}
 			}
+			markEnded(a.ID)
 		case "write":
 			before := map[string]string{}
 			for id, ls := range live {
@@ -686,6 +713,9 @@ func Run(c Case) (res Result, sig string, err error) {
 			if !barrier() {
 				return res, "no-echo", fmt.Errorf("connection stopped answering after a malformed %s message %s", a.Typ, a.Raw)
 			}
+			if a.Typ == "unsubscribe" {
+				markEnded(a.ID)
+			}
 			feats["malformed"] = true
 		case "partial-frame":
 			// a frame that leaves out "id" and/or "type": the missing member is empty, it must
@@ -740,6 +770,9 @@ func Run(c Case) (res Result, sig string, err error) {
 		}
 		if s, e := consume(); e != nil {
 			return res, s, e
+		}
+		if e := checkEnded(); e != nil {
+			return res, "runs-after-unsubscribe", e
 		}
 		if c.Lifecycle {
 			evs := lg.snapshot()
@@ -837,11 +870,14 @@ func Run(c Case) (res Result, sig string, err error) {
 			}
 			return cp, st.ncalls
 		}
-		time.Sleep(3 * time.Millisecond)
+		// ServeJSONSocket has returned: every rerunner's Stop has returned, no run is in progress
 		c1, n1 := settle()
 		nout1 := sock.NOut()
 		time.Sleep(15 * time.Millisecond)
 		c2, n2 := settle()
+		if e := checkEnded(); e != nil {
+			return res, "runs-after-unsubscribe", e
+		}
 		if n2 != n1 {
 			var who []string
 			for k, v := range c2 {
